@@ -132,6 +132,11 @@ func cfgS4(prop string, seed uint64, tier string) *RunCfg {
 		}
 		c.Faults = append(c.Faults, f)
 	}
+	if cs.Inactivity > 0 && r.Intn(4) == 0 {
+		// the server goes silent somewhere in the hand-shake: list_dbs, get_schema (twice
+		// with _Server), the leader check, the _Server monitor, the first user monitor
+		c.Faults = append(c.Faults, FaultSpec{Kind: "mute", AfterTxn: -1, Frame: r.Intn(7), N: 1})
+	}
 	return c
 }
 
